@@ -356,6 +356,12 @@ class E2:
                     yield from self.block(fn, fn.bmap[tru if cv else fls], b, env, args, path, depth); return
                 for tgt in (tru, fls):                      # unknown condition: both ways; only `form == 0` is recorded
                     p2 = path.fork(); p2.cases.append(("branch", i.line, tgt == tru))
+                    # a branch on one bit of a symbolic value (if (flag) ...): that bit is known on each side
+                    if isinstance(c, BV) and c.w >= 1:
+                        e = c.bits[0]; truth = (tgt == tru)
+                        while isinstance(e, tuple) and e and e[0] == "not": e = e[1]; truth = not truth
+                        if isinstance(e, tuple) and len(e) == 2 and isinstance(e[0], str) and isinstance(e[1], int) and e[0] not in ("not", "cmp"):
+                            p2.cases.append(("bit", e, 1 if truth else 0))
                     if isinstance(c, BV) and c.w >= 1 and isinstance(c.bits[0], tuple) and c.bits[0][0] in ("cmp", "not"):
                         e = c.bits[0]; truth = (tgt == tru)
                         if e[0] == "not": e = e[1]; truth = not truth
